@@ -44,6 +44,8 @@ func endsWithSlash(fn *ssa.Function) bool {
 var sqlVerb = regexp.MustCompile(`(?i)^\s*(SELECT|DELETE|UPDATE|INSERT|CREATE)\b`)
 
 func runC12(w *World, r *Report) {
+	// the replicate-meta store is one of the metadata back ends: its prefix reads stay inside their own root path (C17-R8)
+	defer r.importRules(runC17, "C12-", map[string]bool{"C17-R8": true})
 	r.Rule("C12-R1", "etcd prefix discipline", "WithPrefix <=> the key comes from a '/'-terminated prefix function; exact operations use key functions; key functions are path.Join(rootPath, <kind constant>, ids…)", 12)
 	r.Rule("C12-R2", "SQL key predicate", "every SELECT/DELETE/UPDATE statement text constrains the *_key column (= ? with a key-function value, or LIKE '<prefix>%' with a '/'-terminated prefix)", 6)
 	r.Rule("C12-R3", "transactional delete", "store.DeleteTask: both deletes receive the transaction object; the transaction is finished on every path", 2)
